@@ -76,7 +76,9 @@ package bcl
 //@   loop 1 step [C04] bind_filters_by_type_in_order: instr == opBIND ==> len(blocks) == cntType(elems(vm.result), len(vm.result), blockType) && len(blocks) >= 1 && (forall i int :: 0 <= i && i < len(vm.result) && vm.result[i].Type == blockType ==> blocks[cntType(elems(vm.result), i, blockType)] == vm.result[i])
 //@   loop 1 step [C04] bind_operands: instr == opBIND ==> blockType == as_str(prev(vm.prog.constants[int(operand1(vm))])) && int(selector) == int(bindOpt) % 16 && int(target) == int(bindOpt) / 16 * 16
 //
-//@   loop 2 invariant filter: 0 - 1 <= rangeindex && rangeindex < len(vm.result) && len(blocks) == cntType(elems(vm.result), rangeindex + 1, blockType) && (forall i int :: 0 <= i && i <= rangeindex && vm.result[i].Type == blockType ==> blocks[cntType(elems(vm.result), i, blockType)] == vm.result[i])
+//@   loop 2 invariant index: 0 - 1 <= rangeindex && rangeindex < len(vm.result)
+//@   loop 2 invariant filter_count: len(blocks) == cntType(elems(vm.result), rangeindex + 1, blockType)
+//@   loop 2 invariant filter_order: forall i int :: 0 <= i && i <= rangeindex && vm.result[i].Type == blockType ==> blocks[cntType(elems(vm.result), i, blockType)] == vm.result[i]
 //@   loop 2 invariant results_kept: forall i int :: 0 <= i && i < len(vm.result) ==> vm.result[i] == prev(vm.result[i])
 //@   loop 2 invariant blocks_fresh: isnew(blocks) && arr(blocks) != arr(vm.result)
 //@   loop 2 invariant outer_state_kept: vm.tos == prev(vm.tos) && vm.blockTos == prev(vm.blockTos) && vm.blockStack == prev(vm.blockStack) && vm.result == prev(vm.result) && vm.prog == old(vm.prog) && !overflow && instr == opBIND && vm.prog.linePos != nil
